@@ -1170,9 +1170,21 @@ fn main() {
     );
     rep.assumptions.push(
         "independent rANS 4x8 / Nx16 decoders and ITF8/LTF8/uint7 reference codecs were written from the CRAM 3.x / CRAM codecs \
-         specification as reconstructed from memory of the text and of the htscodecs reference behaviour (no network, no copy of the \
-         documents in the sandbox); compressed order-1 tables, 10-bit order-1 shift and compressed RLE meta data are implemented in \
-         the independent decoder but never exercised because noodles' encoder never emits them"
+         specification as reconstructed from memory of its pseudocode and of the htscodecs reference behaviour (no network, no copy of \
+         the documents in the sandbox); they are validated at every start against 8 known-answer streams that noodles' encoder did not \
+         produce (reference-implementation vectors: un-normalised tables needing the power-of-two shift, a 10-bit order-1 table, rANS \
+         compressed RLE meta data, stripe sub-streams carrying their own size, a 4x8 order-1 table normalised to 4096); those features \
+         are never emitted by noodles' encoder, so for them the cross-decoding says nothing about noodles. Left-over bytes after the last \
+         symbol are not judged. No Nx16 flag subset had to be dropped from cross-decoding: on the unchanged tree every disagreement \
+         between the independent decoder and noodles' stream coincides with a failure of noodles' own decoder on the same stream"
+            .into(),
+    );
+    rep.assumptions.push(
+        "a stream that the specification decoder cannot read is additionally read by a 'dialect' variant of the same decoder that \
+         inverts the known defects of noodles' encoder (findings/C08.known); only if that variant reproduces the input exactly is the \
+         failure reported under the known defect's signature, every other failure keeps a generic narrow signature. Token streams \
+         inside a name tokenizer block have no independently known content: a byte string X counts as the content of a stream iff \
+         noodles' deterministic rans_nx16 encoder maps X to exactly that stream; the specification decoder must then return X"
             .into(),
     );
     rep.assumptions.push(
@@ -1181,6 +1193,12 @@ fn main() {
             .into(),
     );
     rep.assumptions.push("AAC, fqzcomp, name tokenizer, gzip, bzip2, lzma: self round trip only (no independent decoder)".into());
+    match refrans::self_check() {
+        Ok(n) => {
+            rep.counters.insert("independent_decoder_known_answer_streams".into(), n as u64);
+        }
+        Err(e) => rep.floors_unmet.push(format!("independent rANS decoder fails its known-answer self check: {e}")),
+    }
     let cases = gen_cases(&ctx);
     let f = |i: u64| -> CaseOut {
         let c = &cases[i as usize];
